@@ -53,6 +53,36 @@ def gen(seed, tier):
     return cases
 
 
+def gen_choosers(seed, tier):
+    """weighted hierarchies under the weight-aware decider: zero weights first / in the middle / last, scripted draws at both
+    ends of the range (draw 0 is where a zero-weight FIRST production would be picked), recorded streams"""
+    from harness.props import synth_common as sy
+    r = flow.rng(seed, "c19w")
+    big = tier == "thorough"
+    S = lambda i: ["sym", i]  # noqa: E731
+    INT = ["base", "int"]
+    A = {"parent": None, "abs": "abc", "fields": [], "weight": None}
+    P = lambda w, *fields: {"parent": 0, "abs": None, "fields": list(fields), "weight": w}  # noqa: E731
+    H = lambda classes: {"classes": classes, "considered": list(range(len(classes))), "start": 0, "xdepth": False}  # noqa: E731
+    Z, ONE, TWO, Q = [0, 1], [1, 1], [2, 1], [1, 4]
+    fam = []
+    for ws in ([Z, ONE], [ONE, Z], [Z, None, TWO], [None, Z, Q], [Z, Z, ONE], [Q, ONE, Z], [Z, ONE, Z]):
+        fam.append(H([dict(A)] + [P(w, INT) for w in ws]))                                   # terminal productions only
+        fam.append(H([dict(A)] + [P(w, INT) for w in ws[:-1]] + [P(ws[-1], S(0), S(0))]))    # last one recursive
+        fam.append(H([dict(A)] + [P(ws[0], S(0))] + [P(w, INT) for w in ws[1:]]))            # first one recursive
+    cases = []
+    for d in fam:
+        srcs = [{"k": "extreme", "policy": "min"}, {"k": "extreme", "policy": "max"}, {"k": "extreme", "policy": "alt"}]
+        srcs += [{"k": "record", "seed": r.randrange(10**6)} for _ in range(2 if not big else 8)]
+        for src in srcs:
+            cases.append({"op": "create", "decl": d, "decider": ["prog"], "src": src})
+    for _ in range(40 if not big else 200):
+        d = grammars.gen_decl(r, {"weights": True, "tuples": False})
+        for src in ({"k": "extreme", "policy": "min"}, {"k": "record", "seed": r.randrange(10**6)}):
+            cases.append({"op": "create", "decl": d, "decider": ["prog"], "src": src})
+    return cases
+
+
 def describe(c, o):
     return "classes:\n" + grammars.source(c["decl"])[len(grammars.HEADER):] + f"considered={c['decl']['considered']} start=C{c['decl']['start']} extracted {c.get('times', 1)}x -> observed weights " + json.dumps([x.get("ok", {}).get("weights") if "ok" in x else x for x in o.get("ok", {}).get("extractions", [])])[:900]
 
@@ -67,9 +97,20 @@ def nontrivial(c, o):
 def run(tier, seed, replay=None):
     chk = core.Check("C19", tier, seed)
     proof = core.proof_step("C19", thorough=(tier == "thorough"))
-    cases = [replay["replay"]["case"]] if replay else gen(seed, tier)
-    outs, corr, orac = flow.differential(chk, "grammar", cases, to_coq, gc.IMPORTS, run_fn="run_c19", describe=describe,
-                                          component="weight normalisation", kind=lambda c: str(c.get("times")), chunk=150)
+    from harness.props import synth_common as sy
+    w_replay = bool(replay and replay["replay"].get("driver") == "synth")
+    cases = [] if w_replay else [replay["replay"]["case"]] if replay else gen(seed, tier)
+    outs, corr, orac = (None, [], []) if w_replay else flow.differential(
+        chk, "grammar", cases, to_coq, gc.IMPORTS, run_fn="run_c19", describe=describe,
+        component="weight normalisation", kind=lambda c: str(c.get("times")), chunk=150)
+    # last clause: the weight-aware chooser on weighted hierarchies (zero weights at every position, boundary draws)
+    wcases = [replay["replay"]["case"]] if w_replay else [] if replay else gen_choosers(seed, tier)
+    wouts, wcorr, worac = flow.differential(
+        chk, "synth", wcases, sy.to_coq, sy.IMPORTS.replace("SynthCheck.", "SynthCheck WeightCheck."), run_fn="run_c19w", describe=sy.describe,
+        component="weight-aware production choice (ProgressivelyTerminalDecider, choice_weighted)", kind=lambda c: c["src"]["k"], chunk=60) if wcases else (None, [], [])
+    if w_replay and wouts:
+        print("replayed:", sy.describe(wcases[0], wouts[0]))
+        print("correspondence", "FAILS" if wcorr else "ok", "| contract", "FAILS" if worac else "holds")
     if replay and outs:
         print("replayed:", describe(cases[0], outs[0]))
         print("correspondence", "FAILS" if corr else "ok", "| contract", "FAILS" if orac else "holds")
@@ -82,7 +123,9 @@ def run(tier, seed, replay=None):
             if "exc" in x:
                 errs[x["exc"]] = errs.get(x["exc"], 0) + 1
     cov = {
-        "evaluations": len(cases),
+        "weight_aware_choices": {"creations": len(wcases), "programs": sum(1 for o in wouts or [] if "ok" in (o.get("ok", {}).get("res") or {})),
+                                 "correspondence_mismatches": len(wcorr), "oracle_failures": len(worac)},
+        "evaluations": len(cases) + len(wcases),
         "distinct_nontrivial": flow.distinct_nontrivial(cases, outs or [], nontrivial) if outs else 0,
         "traces_validated_against_impl": len(cases),
         "correspondence_mismatches": len(corr), "oracle_failures": len(orac),
